@@ -25,6 +25,7 @@ RULE = (
     "least one event besides the first BPM; distinct by canonical JSON of the timing data."
     " Round 5: different kinds on adjacent ticks, pauses as long as a BPM value, 'nice' BPM sets with an offset putting an event boundary on time 0, engines read from SSC, SM and SM-with-FREEZES texts."
     ' Round 6: values in exponent / plus-sign spelling, SSC engines built with a chart whose timing properties are empty, 17-40 separate warps.'
+    ' Round 8: timing on the chart of a version 0.7/0.70/0.83 simfile (chart without OFFSET when the offset is 0); warps shorter than half a tick.'
 )
 EXHAUSTIVE_PART = "all placements of <=3 (quick) / <=5 (thorough; <=4 for C12) events on the 5-beat grid"
 ASSUMPTIONS = ["exact rational timeline is the specification", "float error of the engine stays below 1e-9 s for times below ~3e4 s"]
